@@ -1,2 +1,4 @@
 From LV Require Import Machine.Syntax Machine.Lex Machine.Sem.
 NAMES run all_postings bget valid_address valid_asset lexer_asset
+UNIT ns
+GLUE nsrun.ml
